@@ -36,6 +36,14 @@ COMPUTER = {"name": "stft", "bank": {"name": "fbank", "num_filts": 5, "sampling_
             "use_power": False, "kaldi_shift": False}
 PRES = [[], ["preemph"], ["dither", {"name": "preemph", "coeff": 0.9}]]
 POSTS = [[], [{"name": "deltas", "num_deltas": 1}], [{"name": "stack", "num_vectors": 2}, {"name": "deltas", "num_deltas": 2}]]
+# the same step twice: written as YAML this is an anchor and an alias of it (one object after parsing), as JSON two equal objects
+_TWICE = {"name": "deltas", "num_deltas": 1, "context_window": 1}
+POSTS.append([_TWICE, _TWICE])
+
+
+def fresh(cfg):
+    """the library gets its own copy of a configuration: what it does to it must not reach the harness"""
+    return json.loads(json.dumps(cfg))
 
 
 def opname(cfg):
@@ -92,8 +100,8 @@ def library_kaldi(signals, order, pre_cfg, post_cfg, seed):
     """What the library computes, the way the kaldi tool is specified to drive it."""
     np.random.seed(seed)
     comp = alias.alias_factory_subclass_from_arg(compute.FrameComputer, json.loads(json.dumps(COMPUTER)))
-    pres = [alias.alias_factory_subclass_from_arg(pre.PreProcessor, c) for c in pre_cfg]
-    posts = [alias.alias_factory_subclass_from_arg(post.PostProcessor, c) for c in post_cfg]
+    pres = [alias.alias_factory_subclass_from_arg(pre.PreProcessor, fresh(c)) for c in pre_cfg]
+    posts = [alias.alias_factory_subclass_from_arg(post.PostProcessor, fresh(c)) for c in post_cfg]
     out = {}
     for uid in order:
         x = signals[uid].astype(np.float64)
@@ -131,7 +139,7 @@ def kaldi_runs(run, tier, rng, root, traces):
     tid = len(traces)
     # --min-duration is the minimum duration that IS processed: the last pass excludes everything shorter than 0.125 s
     # and keeps the utterance that lasts exactly 0.125 s
-    for (pi, qi, syntax, min_dur) in [c + (0.0,) for c in combos] + [(1, 1, "inline", 0.125)]:
+    for (pi, qi, syntax, min_dur) in [c + (0.0,) for c in combos] + [(1, 1, "inline", 0.125), (0, 3, "yaml", 0.0), (2, 3, "json", 0.0)]:
         pre_cfg, post_cfg = PRES[pi], POSTS[qi]
         for channel in (-1, 1):
             if channel == 1 and ((pi + qi) % 2 or min_dur):
@@ -235,16 +243,19 @@ def torch_runs(run, tier, rng, root, traces, computer=None, seed=5, combos=None,
     spec = []
     lines = []
     for k, (n, cont) in enumerate([(900, "wav"), (1300, "npy"), (60, "npy"), (1100, "pt"), (800, "sph"), (1000, "npy2"),
-                                   (100, "npy"), (161, "wav"), (80, "npy"), (5, "npy")]):  # (80 = frame_length / 2 exactly: still no frame)
+                                   (100, "npy"), (161, "wav"), (80, "npy"), (5, "npy"),
+                                   (1050, "npy1")]):  # (80 = frame_length / 2 exactly: still no frame; npy1: mono, stored channels-first as (1, S))
         # (ids are matched whole: "t00" is not done because "t00x" is)
         # (... and may contain dots: "sp1.0-t04" and "sp1.1-t05" are two utterances, each stored under its own name)
-        uid = {0: "t00x", 3: "t00", 4: "sp1.0-t04", 5: "sp1.1-t05", 8: "t_half_frame", 9: "t_five_samples"}.get(k, "t%02d" % k)
+        uid = {0: "t00x", 3: "t00", 4: "sp1.0-t04", 5: "sp1.1-t05", 8: "t_half_frame", 9: "t_five_samples", 10: "t_mono_1xS"}.get(k, "t%02d" % k)
         x = nprng.randint(-3000, 3000, size=n).astype(np.int16)
-        p = os.path.join(d, "raw", uid + "." + cont.replace("npy2", "npy"))
+        p = os.path.join(d, "raw", uid + "." + cont.replace("npy2", "npy").replace("npy1", "npy"))
         if cont == "wav":
             write_wav(p, x)
         elif cont == "npy":
             np.save(p, x.astype(np.float32))
+        elif cont == "npy1":
+            np.save(p, x[None, :].astype(np.float32))
         elif cont == "npy2":
             x2 = np.stack([x, x[::-1]])  # channels first
             np.save(p, x2.astype(np.float32))
@@ -270,6 +281,7 @@ def torch_runs(run, tier, rng, root, traces, computer=None, seed=5, combos=None,
         combos = [(p, q, s) for p in range(3) for q in range(3) for s in ("inline", "json", "yaml")]
         if tier == "quick":
             combos = [c for i, c in enumerate(combos) if i % 3 == (c[0] + 2 * c[1]) % 3]
+        combos = combos + [(0, 3, "yaml")]
     tid = len(traces)
     firsts = {}
     for (pi, qi, syntax) in combos:
@@ -316,8 +328,8 @@ def torch_runs(run, tier, rng, root, traces, computer=None, seed=5, combos=None,
                 run.violation({"kind": "fixed_seed_two_runs_differ", "tool": "torch", "pre": pre_cfg, "post": post_cfg})
             # the library pipeline on the same inputs
             comp = alias.alias_factory_subclass_from_arg(compute.FrameComputer, json.loads(json.dumps(COMPUTER))) if with_comp else None
-            pres = [alias.alias_factory_subclass_from_arg(pre.PreProcessor, c) for c in pre_cfg]
-            posts = [alias.alias_factory_subclass_from_arg(post.PostProcessor, c) for c in post_cfg]
+            pres = [alias.alias_factory_subclass_from_arg(pre.PreProcessor, fresh(c)) for c in pre_cfg]
+            posts = [alias.alias_factory_subclass_from_arg(post.PostProcessor, fresh(c)) for c in post_cfg]
             for idx, (uid, p, cont, x) in enumerate(chosen):
                 sig = util.read_signal(p, dtype=np.float64) if cont != "multi" else x.astype(np.float64)  # (its own entry of the archive)
                 if sig.ndim != 1:
